@@ -422,7 +422,9 @@ def run(ctx):
         conds = lambda t: sorted(set(T.show(x[1]) for x in T.walk(t) if x[0] == 'ite'))
         ctx.check('Threefish injection rounds symmetric', conds(te) == conds(td) and len(conds(te)) >= 1,
                   'key injection happens under different round conditions: enc %s dec %s' % (conds(te), conds(td)), ctx.where(TF, 'Threefish.dec'))
-        mixargs = lambda t, nm: sorted(set((T.show(x[2][2]), T.show(x[2][3])) for x in T.walk(t) if x[0] == 'call' and x[1] == ('attr', SELF, nm)))
+        import re as _re
+        nobv = lambda s_: _re.sub(r'bv\d+_', 'bv_', s_)        # the nesting depth of a comprehension variable is not part of the round/pair index
+        mixargs = lambda t, nm: sorted(set((nobv(T.show(x[2][2])), nobv(T.show(x[2][3]))) for x in T.walk(t) if x[0] == 'call' and x[1] == ('attr', SELF, nm)))
         ctx.check('Threefish MIX arguments symmetric', mixargs(te, '__MIX') == mixargs(td, '__MIXinv') and len(mixargs(te, '__MIX')) == 1,
                   'MIX and MIXinv are called with different round/pair indices', ctx.where(TF, 'Threefish.dec'))
         uses = lambda t, nm: any(x == ('attr', SELF, nm) for x in T.walk(t))
